@@ -158,7 +158,7 @@ def st_format(separators=None, comments=True):
     seps = separators or ["", "\n", "\n\n", "\n-----\n", " % sep % ", " ", "\n\n\n"]
     d = {
         "indent": st.one_of(st.sampled_from(["\t", "", " ", "  ", "    "]), st.text(alphabet=" \t-", max_size=4)),
-        "value_column": st.one_of(st.integers(0, 40), st.just("auto"), st.just("auto")),
+        "value_column": st.one_of(st.integers(0, 40), st.integers(0, 40), st.just("auto"), st.just("auto"), st.sampled_from([64, 65, 70, 100, 129, 200])),
         "trailing_comma": st.booleans(),
         "block_separator": st.sampled_from(seps),
     }
@@ -172,7 +172,9 @@ def st_writer_library(max_blocks=8):
     from hypothesis import strategies as st
 
     key = st.one_of(st.sampled_from(["k", "k2", "Smith2020", "a:b", "é"]), st.text(alphabet="abcXYZ019_:-", min_size=1, max_size=8))
-    fkey = st.one_of(st.sampled_from(["a", "ab", "title", "author", "year", "x"]), st.text(alphabet="abcdefghijklmnopqrstuvwxyz", min_size=1, max_size=30))
+    # (a few very long keys: the padding of the short ones then exceeds any fixed buffer, also under 'auto')
+    fkey = st.one_of(st.sampled_from(["a", "ab", "title", "author", "year", "x"]), st.text(alphabet="abcdefghijklmnopqrstuvwxyz", min_size=1, max_size=30),
+                     st.sampled_from(["k" * 66, "averyveryverylongfieldkey" * 4, "z" * 130]))
     val = st.one_of(
         st.sampled_from(["{v}", '"v"', "2020", "s # {x}", "{}", "{multi\nline value}", "{a {nested} b}", "{é ü}"]),
         st.text(alphabet="abc {}\"#,=\n", max_size=12),
@@ -187,7 +189,9 @@ def st_writer_library(max_blocks=8):
     string = st.fixed_dictionaries({"t": st.just("string"), "key": key, "value": val, "line": line, "raw": raw})
     pre = st.fixed_dictionaries({"t": st.just("preamble"), "value": val, "line": line, "raw": raw})
     ec = st.fixed_dictionaries({"t": st.just("ecomment"), "comment": st.sampled_from(["c", "a comment", "multi\nline", "", "ends in \\", "x \\\\"]), "line": line, "raw": raw})
-    ic = st.fixed_dictionaries({"t": st.just("icomment"), "comment": st.sampled_from(["% c", "free text", "two\nlines"]), "line": line, "raw": raw})
+    # free-text comments that read like the writer's own warning lines (what parsing a written file with failed blocks yields)
+    ic = st.fixed_dictionaries({"t": st.just("icomment"), "comment": st.sampled_from(["% c", "free text", "two\nlines", "% WARNING Parsing failed for the following 1 lines.",
+                                "% WARNING Parsing failed for the following 2 lines.", "% WARNING Parsing failed for the following 3 lines.", "% FAILED (1 lines)", "% FAILED (2 lines)", "% failed", "%% 11", "%% 22"]), "line": line, "raw": raw})
     failed = st.fixed_dictionaries({"t": st.just("failed"), "raw": raw, "line": line})
     dupf = st.fixed_dictionaries({"t": st.just("dupfield"), "entry": entry, "keys": st.just(["a"])})
     mwe = st.fixed_dictionaries({"t": st.just("mwerror"), "entry": entry, "err": st.sampled_from(["invalidname", "partial"])})
